@@ -689,6 +689,34 @@ pub fn mon_c09_together(f: &Flow, m: &mut Mon) {
 // ---------------------------------------------------------------------------------------------
 // C05: policy consent gates every network, install and reboot action
 
+/// Every request of a check (update check, retries, event reports) carries the parameters the policy
+/// decided for that check.
+pub fn mon_request_params(f: &Flow, m: &mut Mon, src_rule: &str, flags_rule: &str) {
+    for c in &f.checks {
+        let p = c.params;
+        for q in c.uc.iter().chain(c.reports.iter()) {
+            let src = q.json.get("request").and_then(|r| r.get("installsource")).and_then(|v| v.as_str()).unwrap_or("");
+            let want_src = if p.on_demand { "ondemand" } else { "scheduledtask" };
+            let inter = q.headers.iter().find(|h| h.0.eq_ignore_ascii_case("x-goog-update-interactivity")).map(|h| String::from_utf8_lossy(&h.1).to_string());
+            let want_inter = if p.on_demand { "fg" } else { "bg" };
+            let kind = if q.kind == ReqKind::UpdateCheck { "update-check" } else { "event-report" };
+            m.judge(src_rule, src == want_src && inter.as_deref() == Some(want_inter), kind, || {
+                format!("check #{} {} request at seq {}: installsource={} interactivity={:?}, policy params {:?}", c.idx, kind, q.seq, src, inter, p)
+            });
+            if q.kind == ReqKind::UpdateCheck {
+                let apps = q.json.get("request").and_then(|r| r.get("app")).and_then(|a| a.as_array()).cloned().unwrap_or_default();
+                let ok = apps.iter().all(|a| {
+                    let uc = a.get("updatecheck");
+                    let dis = uc.and_then(|u| u.get("updatedisabled")).and_then(|v| v.as_bool()).unwrap_or(false);
+                    let same = uc.and_then(|u| u.get("sameversionupdate")).and_then(|v| v.as_bool()).unwrap_or(false);
+                    uc.is_some() && dis == p.disable && same == p.same_version
+                });
+                m.judge(flags_rule, ok, "", || format!("check #{} request at seq {}: updatecheck flags differ from policy params {:?}: {}", c.idx, q.seq, p, q.json));
+            }
+        }
+    }
+}
+
 pub fn mon_c05(log: &[Rec], f: &Flow, setup: &Setup, m: &mut Mon) {
     // (a) every request lies inside an allowed window and carries the parameters of that check
     if setup.start_mode {
@@ -708,28 +736,8 @@ pub fn mon_c05(log: &[Rec], f: &Flow, setup: &Setup, m: &mut Mon) {
             }
         }
     }
+    mon_request_params(f, m, "c05-request-source", "c05-updatecheck-flags");
     for c in &f.checks {
-        let p = c.params;
-        for q in c.uc.iter().chain(c.reports.iter()) {
-            let src = q.json.get("request").and_then(|r| r.get("installsource")).and_then(|v| v.as_str()).unwrap_or("");
-            let want_src = if p.on_demand { "ondemand" } else { "scheduledtask" };
-            let inter = q.headers.iter().find(|h| h.0.eq_ignore_ascii_case("x-goog-update-interactivity")).map(|h| String::from_utf8_lossy(&h.1).to_string());
-            let want_inter = if p.on_demand { "fg" } else { "bg" };
-            let kind = if q.kind == ReqKind::UpdateCheck { "update-check" } else { "event-report" };
-            m.judge("c05-request-source", src == want_src && inter.as_deref() == Some(want_inter), kind, || {
-                format!("check #{} {} request at seq {}: installsource={} interactivity={:?}, policy params {:?}", c.idx, kind, q.seq, src, inter, p)
-            });
-            if q.kind == ReqKind::UpdateCheck {
-                let apps = q.json.get("request").and_then(|r| r.get("app")).and_then(|a| a.as_array()).cloned().unwrap_or_default();
-                let ok = apps.iter().all(|a| {
-                    let uc = a.get("updatecheck");
-                    let dis = uc.and_then(|u| u.get("updatedisabled")).and_then(|v| v.as_bool()).unwrap_or(false);
-                    let same = uc.and_then(|u| u.get("sameversionupdate")).and_then(|v| v.as_bool()).unwrap_or(false);
-                    uc.is_some() && dis == p.disable && same == p.same_version
-                });
-                m.judge("c05-updatecheck-flags", ok, "", || format!("check #{} request at seq {}: updatecheck flags differ from policy params {:?}: {}", c.idx, q.seq, p, q.json));
-            }
-        }
         // (b) the install plan is created with the parameters of the check and installed only after approval
         if let Some(s) = c.install_start {
             let ok = matches!(c.can_start, Some((q, UpdDec::Ok)) if q < s);
